@@ -488,8 +488,10 @@ class Printer:
                 tag, at, inner = self.carrier_parts(car)
                 kw = "wx:if" if i == 0 else "wx:elif"
                 out.append(self.open_close(tag, [kw + '="' + self.value_text(cond, '"') + '"'] + at, inner))
-                if self.vary and self.rng.chance(1, 4):
-                    out.append("<!-- between -->")
+                if self.vary and self.rng.chance(1, 3):
+                    # between the members of a group: runs of comments and white space (the group goes on over any number of them)
+                    for _ in range(1 + self.rng.below(4)):
+                        out.append(self.rng.choice(["<!-- between -->", "<!---->", " ", "\n  ", "<!-- between -->"]))
             if n[2] is not None:
                 tag, at, inner = self.carrier_parts(n[2])
                 out.append(self.open_close(tag, ["wx:else"] + at, inner))
